@@ -6,6 +6,12 @@ model (`drv_c11`), and after *every* op the complete observable state (raw + pro
 values, every bit-field value) is compared.  Independently the property oracle keeps its own
 "last written value" map (the abstract spec of the refinement theorem) and checks the real object
 against it, plus export/parse, config round trip and purity of read-only queries.
+
+Extension (stream `config_model`): `get_config()` / `load_yml_config()` / alternative widths of the real object are
+compared with the model functions `getConfig` / `loadConfig` / `setAlt` / `getAlt` on layouts with hidden bit-fields,
+enum names shared by several values, reserved registers, reversed and alt-width groups; the configuration clauses of
+the property (round trip, written by enum name, loaded value reads back, loading twice = once) are evaluated on the
+real object alone.
 """
 from __future__ import annotations
 
@@ -426,7 +432,11 @@ def run(ck):
     rng = ck.rng
     ck.assume("config processors other than SHIFT_RIGHT, YAML comment rendering and HTML export are not modelled",
               "layouts are contiguous (offsets back to back) in the correspondence stream; sparse layouts go through C12/C16",
-              "alternative widths (alt_widths) are exercised by the oracle stream only, not by the model")
+              "configuration path: register and bit-field names are unique (duplicate names are C12 findings), configuration values are ints or strings "
+              "(None / float / bool are not generated), sub-registers of a group carry no bit-fields, registers with bit-fields have no alternative widths "
+              "(the model writes bit-fields through the width-agnostic get/set); string rendering of get_config (hex digits, 0x prefix) is canonicalised away",
+              "alternative widths are modelled for groups in normal sub-register order (every database configuration); reverse_subregs_order together with "
+              "alternative widths is neither generated nor asserted")
 
     n_layouts = ck.budget(1200, 12000)
     n_ops = ck.budget(25, 40)
@@ -581,7 +591,9 @@ def run(ck):
                 sq.expect(False, (layout, "config", cfg), "a configuration obtained from the object does not load", lr)
 
     # ---------------- alternative widths (oracle only)
-    sa = ck.stream("alt_widths", "group registers with alternative widths: set/get round trip for values of every byte length; non-trivial = distinct (layout,value)")
+    sa = ck.stream("alt_widths", "group registers with alternative widths (12x32/[256] as ROTKH/RKTH, 6x16/[32,64], 4x8/[16]; reversed and not; raw and processed view): "
+                   "set/get round trip for values of every byte length incl. values with trailing zero bytes, and a full-width value followed by a shorter one "
+                   "(the two open findings are matched by narrow predicates); non-trivial = distinct (layout,value)")
     from spsdk.utils.registers import Register
     for sub_w, n, alts in ((32, 12, [256]), (32, 4, [64]), (8, 4, [16])):
         for rev_subs in (False,):
@@ -670,11 +682,53 @@ def quiet(fn, *a, **kw):
         logging.disable(logging.NOTSET)
 
 
+def check_loaded(sc, layout, hc, regs, upper_before):
+    """abstract statement of a successful load_yml_config on the real object: every bit-field named in the configuration reads
+    the value given (number: processed value; RAW: the stored bits; enum name: the first value of that name), every register
+    given as one value reads it in the processed view."""
+    for name, val in hc.items():
+        if not (name.startswith("REG") and name[3:].isdigit()):
+            continue
+        ri = int(name[3:])
+        r = layout[ri]
+        reg = regs.find_reg(name)
+        if isinstance(val, dict) and "value" not in val:
+            d = val["bitfields"] if "bitfields" in val else val
+            if r["kind"] != "plain" or r["flip"]:
+                continue
+            for bname, bval in d.items():
+                fi = [k for k, f in enumerate(r["fields"]) if fname(ri, k, f) == bname][0]
+                f = r["fields"][fi]
+                if isinstance(bval, int):
+                    exp = bval >> f["shift"] << f["shift"]
+                elif bval.startswith("RAW:"):
+                    exp = int(bval[4:], 0) << f["shift"]
+                elif bval.startswith("N"):
+                    exp = f["enums"][f["names"].index(int(bval[1:]))] >> f["shift"] << f["shift"]
+                else:
+                    exp = int(bval, 0) >> f["shift"] << f["shift"]
+                got = pyres(reg.find_bitfield(bname).get_value)
+                sc.expect(got == ("ok", exp), (layout, hc, name, bname), "a bit-field loaded from a configuration does not read the configured value", got, exp)
+        else:
+            x = val["value"] if isinstance(val, dict) else val
+            hexstr = r["kind"] == "group" and r["hexstr"]
+            v = x if isinstance(x, int) else int(x, 16) if (hexstr or x.lower().startswith("0x")) else int(x, 0)
+            finding = None
+            if r["kind"] == "group" and r["alts"]:
+                aw = alt_width(r["alts"], r["width"], v)
+                if any(u != 0 for u in upper_before[ri][aw // r["sub_w"]:]):
+                    finding = "C11-alt-width-stale-sub-registers"
+                elif r["reverse"] and alt_unstable(r["alts"], r["width"], v):
+                    finding = "C11-alt-width-reversed-trailing-zero-bytes"
+            got = pyres(reg.get_value, False)
+            sc.expect(got == ("ok", v), (layout, hc, name), "a register loaded from a configuration as one value does not read that value", got, v, finding=finding)
+
+
 def run_config_model(ck, drv):
     """stream `config_model`: get_config / load_yml_config / alternative widths of the real object vs the Lean model, plus the
     property oracle of the configuration clauses on the real object alone."""
     rng = ck.rng
-    n_layouts = ck.budget(450, 6000)
+    n_layouts = ck.budget(1500, 20000)
     sc = ck.stream("config_model", f"{n_layouts} random layouts (plain registers with contiguous bit-fields, ~25% hidden, enum tables with repeated values and "
                    "names shared by several values, SHIFT_RIGHT, reserved registers, trailing uncovered bits, reversed plain registers with bit-fields; "
                    "groups incl. reversed, config_as_hexstring, alternative widths [256] in 384 bits as in the database and smaller variants) x "
@@ -816,6 +870,8 @@ def run_config_model(ck, drv):
                 continue
             sc.note((layout, "hand-made", hc), cls="hand-made:" + hr[0])
             sc.expect(hr[0] in ("ok", "E:spsdk"), (layout, hc), "load_yml_config raised a non-SPSDK exception", hr)
+            if hr[0] == "ok":
+                check_loaded(sc, layout, hc, fresh, fresh_upper)
             lines += ["restore", f"load_config {enc_h}"]
             real += [None, (hr[0] + " " + dump_real_cfg(fresh, layout)) if hr[0] == "ok" else hr[0]]
             what += [None, f"hand-made configuration {hc}"]
